@@ -208,6 +208,21 @@ def rule_sites(ctx):
 def rule_structural_discharges(ctx):
     """The computed parts of the table: CONSTARG / ARITY / DOM facts that the reasons above rely on."""
     fx = ctx.facts
+    # C17-SITES: GeneralTerm::substitute panics on a sort mismatch; the binder renaming of Formula::substitute hands it GeneralTerm::from(variable),
+    # which must be an occurrence of the variable's own sort
+    from .. import collect
+    collect.check_variable_conversions(ctx, "PANIC-TAB", fx, which=("from",))
+    # MAP: `mapping[&p]` in is_tight / has_private_recursion cannot miss a key because a node is created for every predicate of the program
+    # (every private one) and an edge only joins predicates of its rules (both private): the graph obligations of C11
+    from . import c11
+    sub = type(ctx)(ctx.prop, ctx.tier, ctx.facts)
+    c11.rule_graphs(sub)
+    for o in sub.obls:
+        if o["key"] in ("GRAPH:tight:nodes", "GRAPH:tight:edges", "GRAPH:private:nodes", "GRAPH:private:edges-restricted"):
+            o = dict(o)
+            o["key"] = "PANIC-TAB:MAP:" + o["key"].split(":", 1)[1]
+            o["rule"] = "PANIC-TAB"
+            ctx.obls.append(o)
     # CONSTARG: binop arguments
     val = fx.fn("tau_star::val")
     for fn, allowed in (("tau_star::construct_total_function_formula", {"Add", "Subtract", "Multiply"}), ("tau_star::construct_partial_function_formula", {"Divide", "Modulo"})):
